@@ -31,8 +31,13 @@ for m in sorted(glob.glob(os.path.join(ROOT, "seeded", "*", "meta.json"))):
     c = d.get("confirmed_by_lead", {})
     rows.append("| %s | %s | %s | %s |" % (name, d.get("property"), str(d.get("needs_to_manifest", ""))[:200].replace("|", "/").replace("\n", " "), ((c.get("check") or c.get("result") or "not yet run") + "; " + (", ".join(c.get("caught_by")) if isinstance(c.get("caught_by"), list) else str(c.get("caught_by", ""))))[:260].replace("|", "/")))
 t3 = "\n".join(rows)
+rows = ["| commit | property | what failed before the repair |", "|---|---|---|"]
+for x in kf["fixed"]:
+    m = re.match(r"fixed: property=(\w+) (\w+) (.*)", x, re.S)
+    if m: rows.append("| `%s` | %s | %s |" % (m.group(2), m.group(1), m.group(3)[:330].replace("|", "/").replace("\n", " ")))
+t4 = "\n".join(rows)
 s = open(os.path.join(ROOT, "DESIGN.md")).read()
-for tag, t in (("STATUS", t1), ("FINDINGS", t2), ("SEEDED", t3)):
+for tag, t in (("STATUS", t1), ("FINDINGS", t2), ("SEEDED", t3), ("FIXED", t4)):
     b = "<!-- BEGIN %s -->" % tag; e = "<!-- END %s -->" % tag
     if b in s:
         s = s[:s.index(b) + len(b)] + "\n" + t + "\n" + s[s.index(e):]
